@@ -2355,3 +2355,9 @@ M("C06-simple-type-identity-ignores-signed", "C06", "src/cppparser/cppSimpleType
 M("C11-global-list-gets-the-discarded-index", "C11", F_DBX,
   "        _global_types.push_back(this_type_index);", "        _global_types.push_back(other_type_index);",
   expect="R11.12|merge_from|_global_types.push_back")
+
+# ---- R15.32 (F-C15ac: show_line reads in front of the line)
+M("C15-show-line-predecrement-without-floor", "C15", F_PP,
+  "    while (last > 0 && isspace(linestr[last - 1])) {\n      --last;\n    }\n    linestr = linestr.substr(0, last);\n",
+  "    while (isspace(linestr[--last])) {\n      linestr = linestr.substr(0, last);\n    }\n",
+  expect="R15.32|CPPPreprocessor::show_line|")
